@@ -198,6 +198,17 @@ def replay_config(inp):
         src.write_text("<svg/>")
         kw["masters"] = (MasterConfig("regular", "Regular", "Out File.regular.ufo", (), (src,)),)
         kw["source_names"] = ("a.svg",)
+        if inp.get("masters") == 2:  # the two-master, two-axis structure of sym_config, on real files
+            for sub in ("l", "b"):
+                (Path(d) / sub).mkdir()
+                for n in ("a.svg", "b.svg"):
+                    (Path(d) / sub / n).write_text("<svg/>")
+            kw["axes"] = (Axis("wght", "Weight", float(inp.get("axdef", 400.0))), Axis("wdth", "Width", 100.0))
+            kw["masters"] = (
+                MasterConfig("light", "Light", "Out File.light.ufo", (AxisPosition("wdth", 100.0), AxisPosition("wght", float(inp.get("pos1", 300.0)))), (Path(d) / "l" / "a.svg", Path(d) / "l" / "b.svg")),
+                MasterConfig("bold", "Bold", "Out File.bold.ufo", (AxisPosition("wdth", 100.0), AxisPosition("wght", 700.0)), (Path(d) / "b" / "a.svg", Path(d) / "b" / "b.svg")),
+            )
+            kw["source_names"] = ("a.svg", "b.svg")
         cfg = FontConfig(**kw)
         flags = Flags()
         for n in inp.get("flags", []):
@@ -293,6 +304,8 @@ def job_config(jc):
         inp["flag_reuse_tolerance"] = core.SymNum(z3.Real("flag_reuse_tolerance"))
         for i in range(6):
             inp[f"tr{i}"] = core.SymNum(z3.Real(f"tr{i}"))
+        if with_masters == 2:
+            inp["pos1"], inp["axdef"] = core.SymNum(z3.Real("pos1")), core.SymNum(z3.Real("axdef"))
         if r.exc is not None:
             # rebuild the expected (flag-resolved) values by name and require the error to be justified
             jc.reach(r, "ValueError")
